@@ -16,7 +16,7 @@ THEOREMS = ("token_ledger, signal_not_lost, node_in_list_iff, broadcast_releases
 
 def stress(c, binary, configs, timeout=600):
     """configs: (seed, rounds, maxWaiters) for the general scenario, or (seed, "bcast-expiry", rounds, waiters, probes) /
-    (seed, "first-use", rounds) for the directed ones"""
+    (seed, "first-use", rounds) / (seed, "positions", repeats) for the directed ones"""
     bad = []
     for cfg in configs:
         cmd = [binary, "c13-cond-stress"] + [str(x) for x in cfg]
@@ -61,16 +61,16 @@ def run(c, binary, labels, tier, focus="c13"):
     broken = bool(problems or mism or not stats)
     # 3. stress / monitors (dynamic complement; the search when 1/2 failed)
     configs = [(c.seed, 150, 4), (c.seed + 1, 60, 8),
-               (c.seed, "bcast-expiry", 40, 32, 192), (c.seed, "first-use", 600)] if tier == "quick" else \
+               (c.seed, "bcast-expiry", 40, 32, 192), (c.seed, "first-use", 600), (c.seed, "positions", 3)] if tier == "quick" else \
               [(c.seed, 3000, 4), (c.seed + 1, 1500, 8), (c.seed + 2, 600, 16), (c.seed + 3, 4000, 2),
                (c.seed, "bcast-expiry", 400, 32, 192), (c.seed + 1, "bcast-expiry", 200, 64, 256),
-               (c.seed, "first-use", 6000)]
+               (c.seed, "first-use", 6000), (c.seed, "positions", 40)]
     sbad = stress(c, binary, configs)
     searched = 0
     if broken and not sbad:
         more = [(c.seed + 10 + i, 1500, w) for i, w in enumerate((2, 3, 4, 6, 8, 12))] + \
                [(c.seed + 30, "bcast-expiry", 600, 32, 192), (c.seed + 31, "bcast-expiry", 300, 8, 64),
-                (c.seed + 30, "first-use", 10000)]
+                (c.seed + 30, "first-use", 10000), (c.seed + 30, "positions", 100)]
         searched = len(more)
         sbad = stress(c, binary, more)
         if not sbad:
